@@ -81,7 +81,31 @@ func c01RExp(sb *strings.Builder, e syntax.Exp) error {
 		}
 		sb.WriteString(")")
 	case *syntax.RefExp:
-		sb.WriteString("(ref " + t.Id + c01Path(t.OutputId) + ")")
+		sb.WriteString("(ref " + t.Id)
+		// known fork indices, sorted by call id like the driver
+		var fks [][2]string
+		for call, ix := range t.Forks {
+			if call == nil || ix == nil {
+				continue
+			}
+			if k := ix.IndexSource(); k != nil {
+				continue // not known until run time
+			}
+			if ix.Mode() == syntax.ModeMapCall {
+				fks = append(fks, [2]string{call.Id, "(k " + c01hx(ix.MapKey()) + ")"})
+			} else {
+				fks = append(fks, [2]string{call.Id, fmt.Sprintf("(i %d)", ix.ArrayIndex())})
+			}
+		}
+		for i := 1; i < len(fks); i++ {
+			for j := i; j > 0 && fks[j][0] < fks[j-1][0]; j-- {
+				fks[j], fks[j-1] = fks[j-1], fks[j]
+			}
+		}
+		for _, e := range fks {
+			sb.WriteString(" (fk " + e[0] + " " + e[1] + ")")
+		}
+		sb.WriteString(c01Path(t.OutputId) + ")")
 	case *syntax.SplitExp:
 		id := "?"
 		if t.Call != nil {
@@ -130,7 +154,11 @@ func c01CGNodes(sb *strings.Builder, node syntax.CallGraphNode) error {
 		}
 		return nil
 	}
-	sb.WriteString(" (node " + node.GetFqid())
+	sb.WriteString(" (node " + node.GetFqid() + " (forks")
+	for _, fr := range node.ForkRoots() {
+		sb.WriteString(" " + fr.Call().Id)
+	}
+	sb.WriteString(")")
 	ins := node.ResolvedInputs()
 	for _, p := range node.Callable().GetInParams().List {
 		rb := ins[p.Id]
@@ -257,7 +285,7 @@ func c01StaticCheck(c *Ctx, cases []c01StaticCase, stream string, reported map[s
 	for i, cs := range cases {
 		rep := c01ParseStatic(replies[i])
 		if rep.skip {
-			r.hist("static:" + stream + ":not-plain")
+			r.hist("static:" + stream + ":" + strings.TrimSpace(replies[i]))
 			continue
 		}
 		nodes := strings.Count(rep.static, " (node ")
